@@ -231,10 +231,10 @@ int main(int argc, char** argv) {
         int rc = p ? pclose(p) : -1;
         if (rc != 0) run.harnessError("building the TSan race-pass harness failed: " + out.substr(0, 2000));
         else {
-            std::string cmd = "TSAN_OPTIONS='halt_on_error=0 report_signal_unsafe=0 history_size=4' " + run.buildDir + "/bin/C17_tsan " + std::to_string(th ? 40 : 6) + " 2>&1";
+            std::string cmd = "TSAN_OPTIONS='halt_on_error=0 report_signal_unsafe=0 history_size=4' timeout -s KILL 900 " + run.buildDir + "/bin/C17_tsan " + std::to_string(th ? 40 : 6) + " 2>&1";
             p = popen(cmd.c_str(), "r"); std::string rep;
             while (p && fgets(buf, sizeof buf, p)) rep += buf;
-            if (p) pclose(p);
+            int prc = p ? pclose(p) : -1;
             int reports = 0; long freeRuns = 0, freeBad = 0; std::string first;
             std::istringstream is(rep); std::string l;
             while (std::getline(is, l)) {
@@ -244,7 +244,9 @@ int main(int argc, char** argv) {
                 if (first.empty() && l.rfind("FREE-ORACLE-FAIL", 0) == 0) first = l;
             }
             run.extraCoverage["race_pass"] = "{\"runs\": " + std::to_string(freeRuns) + ", \"tsan_reports\": " + std::to_string(reports) + ", \"oracle_failures\": " + std::to_string(freeBad) + "}";
-            if (freeRuns == 0) run.harnessError("free-running pass produced no runs: " + rep.substr(0, 1500));
+            if (freeRuns == 0 && prc != 0 && rep.find("FREE-ORACLE-FAIL") == std::string::npos)
+                run.violation("free-run-hang-or-crash", "the free-running pass did not finish within 900 s or crashed (exit status " + std::to_string(prc) + ")", "section=race\ncommand=" + cmd + "\n" + rep.substr(0, 2000));
+            else if (freeRuns == 0) run.harnessError("free-running pass produced no runs: " + rep.substr(0, 1500));
             if (reports > 0) run.violation("race/GeneralForceSubsystem", "ThreadSanitizer reported " + std::to_string(reports) + " data race(s) in the free-running pass", "section=race\ncommand=" + cmd + "\n" + rep.substr(0, 6000));
             if (freeBad > 0) run.violation("free-run-totals-differ", "free-running pass: totals differ from the serial reference in " + std::to_string(freeBad) + " of " + std::to_string(freeRuns) + " runs; first: " + first, "section=race\ncommand=" + cmd + "\n" + rep.substr(0, 3000));
         }
